@@ -88,6 +88,35 @@ PROPS = {
              "for required), min <= v <= max for every non-null non-NaN v in the column order (signed / unsigned via converted type / IEEE / bytewise), "
              "min/max absent when the page has no non-null value. Non-trivial: a page with >= 2 distinct non-NaN values under a min/max check, or an all-null page; distinct by case hash.",
     ),
+    "C16": dict(
+        level="exploration",
+        technique="property-based testing (rapid): differential check of ReadMetaData / PageHeaders / PageHeadersAtOffset against an independent footer decode and page walk",
+        level_text="Exploration: for generated valid files the three introspection calls are compared field by field with what an independent "
+                   "thrift decoder and page walker find in the same bytes.",
+        level_note="Trusted: pqref. The library's thrift schema predates RowGroup fields 5..7, which are therefore not compared.",
+        fixtures=["flat24", "nest", "tiny", "deep", "samename"],
+        gen_anchored=False,
+        stages=[dict(test="TestC16", kind="rapid", quick=2400, thorough=48000)],
+        replay="TestReplayC16",
+        rule="rapid workloads (as C01, <= 80 records) on five fixtures and three codecs, plus (stage 2, when the foreign writer is available) conformant foreign "
+             "files carrying optional footer fields; ReadMetaData converted field by field must equal pqref's footer decode; PageHeaders must equal the walker's "
+             "list of data-page headers in file order incl. statistics; PageHeadersAtOffset(data_page_offset, num_values) must equal the chunk's headers and, started "
+             "at page j with the remaining value count, the tail (first three and last two start pages of every chunk). Non-trivial: >= 2 row groups and a chunk with >= 2 pages; distinct by case hash.",
+    ),
+    "C08": dict(
+        level="exploration",
+        technique="property-based testing (rapid): metamorphic relation - same file through a fragmenting io.ReadSeeker must read identically to bytes.Reader",
+        level_text="Exploration: generated valid files x generated read-fragmentation patterns allowed by the io.Reader contract; oracle is equality with the unfragmented read.",
+        level_note="Trusted: the harness's fragmenting reader (never returns (0,nil) for a non-empty buffer, is not an io.ByteReader).",
+        fixtures=["flat24", "nest", "tiny"],
+        gen_anchored=True,
+        stages=[dict(test="TestC08", kind="rapid", quick=2400, thorough=48000)],
+        replay="TestReplayC08",
+        rule="rapid workloads (<= 40 records, all codecs, all page sizes) written by the library, then read (a) through bytes.Reader and (b) through a wrapper that "
+             "returns at most c bytes per Read for c in {1..16,31,61,127,509,4093} or follows a drawn cyclic schedule of sizes 1..40, optionally returning n>0 together "
+             "with io.EOF at the end; Seek passes through. Rows and Error() must be identical. Non-trivial: non-empty file and at least one Read returned fewer bytes than "
+             "requested although more were available; distinct by case hash. Cases whose unfragmented read fails are discarded and counted (label discarded-baseline-failed).",
+    ),
 }
 
 
